@@ -26,7 +26,9 @@ class C08(Prop):
                 "NV.C08.remove_hash_precondition", "NV.C08.remove_hash_absent_drops_chain", "NV.C08.unlink_preserves",
                 "NV.C08.no_dangling", "NV.C08.task_no_crash", "NV.C08.no_crash", "NV.C08.init_only_adjacent",
                 "NV.C08.command_giver_valid", "NV.C08.command_target_live", "NV.C08.destructed_drops_sentences",
-                "NV.C08.exec_good", "NV.C08.superWalk_clear", "NV.C08.acyclic_redirect", "NV.C08.init_inv"]
+                "NV.C08.exec_good", "NV.C08.destruct_order_tie", "NV.C08.move_efun_order_tie", "NV.C08.move_order_tie",
+                "NV.C08.load_order_tie", "NV.C08.clone_order_tie", "NV.C08.find_or_load_order_tie",
+                "NV.C08.hb_remove_order_tie", "NV.C08.present2_order_tie", "NV.C08.flag_bits_tie", "NV.C08.superWalk_clear", "NV.C08.acyclic_redirect", "NV.C08.init_inv"]
     consts = [("oDestructed", "O_DESTRUCTED"), ("oEnableCommands", "O_ENABLE_COMMANDS"), ("oClone", "O_CLONE")]
     const_headers = ["lpc/object.h"]
     quick_n = 700
@@ -88,7 +90,135 @@ class C08(Prop):
         if not re.search(r"return\s+whashstr\s*\(str,\s*20\)\s*%\s*CONFIG_INT\s*\(__LIVING_HASH_TABLE_SIZE__\)", ob):
             from nvlib.extract import TieBroken
             raise TieBroken("object.c:hash_living_name", "hash_living_name is no longer whashstr(str, 20) % size")
-        out = ["/-- lib/misc/hash.c `T[]` -/",
+        # ---- statement order of the functions the model mirrors: regenerated, tied by `*_order_tie` theorems ----
+        from nvlib.extract import TieBroken
+
+        def body_of(path, header_re):
+            src = open(os.path.join(E.REPO, path)).read()
+            m = re.search(header_re, src)
+            if not m:
+                raise TieBroken(path, "function header %r not found in %s" % (header_re, path))
+            i = src.index("{", m.end() - 1)
+            depth, j = 0, i
+            while True:
+                if src[j] == "{":
+                    depth += 1
+                elif src[j] == "}":
+                    depth -= 1
+                    if depth == 0:
+                        break
+                j += 1
+            return src[i:j + 1]
+
+        def order(path, header_re, markers):
+            """names of the markers sorted by the position of their first occurrence in the function body"""
+            b = body_of(path, header_re)
+            pos = []
+            for name, rx in markers:
+                m = re.search(rx, b)
+                if not m:
+                    raise TieBroken("%s:%s" % (path, name), "marker %s (%s) not found" % (name, rx))
+                pos.append((m.start(), name))
+            return [n for _, n in sorted(pos)]
+
+        orders = {
+            "destructOrder": order("src/simulate.c", r"\nvoid destruct_object \(object_t \* ob\) \{", [
+                ("restrict-test", r"restrict_destruct && restrict_destruct != ob"),
+                ("already-destructed-return", r"if \(ob->flags & O_DESTRUCTED\)\s*\{\s*opt_trace"),
+                ("cache-super", r"super = ob->super;"),
+                ("inventory-loop", r"while \(ob->contains\)"),
+                ("set-restrict", r"restrict_destruct = ob->contains;"),
+                ("apply-move_or_destruct", r"apply \(APPLY_MOVE, ob->contains"),
+                ("restore-restrict", r"restrict_destruct = save_restrict_destruct;"),
+                ("recheck-after-hook", r"OUCH"),
+                ("nested-destruct", r"destruct_object \(otmp\);\s*/\* move_or_destruct"),
+                ("recheck-after-nested", r"we are already unlinked then"),
+                ("remove-sent-env", r"remove_sent \(ob, ob->super\)"),
+                ("unlink-from-env", r"\*pp = \(\*pp\)->next_inv;"),
+                ("remove-object-hash", r"remove_object_hash \(ob\); /\* not vital object \*/"),
+                ("unlink-obj-list", r"pp = &obj_list; \*pp"),
+                ("remove-living-name", r"remove_living_name \(ob\);"),
+                ("drop-sentences", r"ob->sent = NULL;"),
+                ("clear-enable-commands", r"ob->flags &= ~O_ENABLE_COMMANDS;"),
+                ("clear-super", r"ob->super = 0;"),
+                ("push-destruct-list", r"obj_list_destruct = ob;"),
+                ("heart-beat-off", r"set_heart_beat \(ob, 0\);"),
+                ("mark-destructed", r"ob->flags \|= O_DESTRUCTED;")]),
+            "moveEfunOrder": order("lib/efuns/inventory.c", r"\nf_move_object \(void\)\s*\{", [
+                ("resolve-destination", r"find_or_load_object \(sp->u.string\)"),
+                ("mover-destructed-test", r"\(o1 = current_object\)->flags & O_DESTRUCTED"),
+                ("move_object", r"move_object \(o1, o2\);")]),
+            "moveOrder": order("src/simulate.c", r"\nvoid move_object \(object_t \* item, object_t \* dest\) \{", [
+                ("cycle-walk", r"for \(ob = dest; ob; ob = ob->super\)"),
+                ("dest-destructed-test", r"dest && dest->flags & O_DESTRUCTED"),
+                ("remove-sent", r"remove_sent \(item->super, item\);"),
+                ("unlink", r"\*pp = item->next_inv;"),
+                ("set-super", r"item->super = dest;"),
+                ("link-at-head", r"dest->contains = item;"),
+                ("init-dest", r"apply \(APPLY_INIT, dest, 0"),
+                ("recheck-after-init-dest", r"\(dest->flags & O_DESTRUCTED\) \|\| item->super != dest"),
+                ("loop", r"for \(ob = dest->contains; ob; ob = next_ob\)"),
+                ("save-next", r"next_ob = ob->next_inv;"),
+                ("skip-item", r"if \(ob == item\)\s*continue;"),
+                ("cursor-destructed-error", r"An object was destructed at call of"),
+                ("cursor-left-break", r"if \(ob->super != dest\)\s*break;"),
+                ("init-item-by-ob", r"command_giver = ob;\s*\(void\) apply \(APPLY_INIT, item"),
+                ("item-destructed-error", r"The object to be moved was destructed"),
+                ("cursor-left-continue", r"if \(ob->super != dest\)[^\n]*\n\s*continue;"),
+                ("init-ob-by-item", r"command_giver = item;\s*\(void\) apply \(APPLY_INIT, ob"),
+                ("dest-gone-error", r"The destination to move to was destructed"),
+                ("init-item-by-dest", r"command_giver = dest;\s*\(void\) apply \(APPLY_INIT, item")]),
+            "loadOrder": order("src/simulate.c", r"\nobject_t\* load_object \(const char \*mudlib_filename, const char \*pre_text\) \{", [
+                ("alloc", r"ob = get_empty_object \(prog->num_variables_total\);"),
+                ("push-obj-list", r"obj_list = ob;"),
+                ("enter-hash", r"enter_object_hash \(ob\);\s*/\* add name"),
+                ("create", r"call_create \(ob, 0\);"),
+                ("restore-command-giver", r"command_giver = save_command_giver;")]),
+            "cloneOrder": order("src/simulate.c", r"\nobject_t \*clone_object \(const char \*str1, int num_arg\) \{", [
+                ("find-or-load", r"ob = find_or_load_object \(str1\);"),
+                ("clone-of-clone-test", r"if \(ob->flags & O_CLONE\)"),
+                ("blueprint-heart-beat-off", r"set_heart_beat \(ob, 0\);"),
+                ("new-name", r"new_ob->name = make_new_name \(ob->name\);"),
+                ("push-obj-list", r"obj_list = new_ob;"),
+                ("enter-hash", r"enter_object_hash \(new_ob\);\s*/\* Add name"),
+                ("create", r"call_create \(new_ob, num_arg\);"),
+                ("restore-command-giver", r"command_giver = save_command_giver;\s*/\* Never know"),
+                ("destructed-test", r"if \(new_ob->flags & O_DESTRUCTED\)")]),
+            "findOrLoadOrder": order("src/simulate.c", r"\nobject_t \*find_or_load_object \(const char \*str\) \{", [
+                ("lookup", r"lookup_object_hash \(tmpbuf\)"),
+                ("load", r"load_object \(tmpbuf, 0\)"),
+                ("destructed-test", r"!ob \|\| \(ob->flags & O_DESTRUCTED\)")]),
+            "hbRemoveOrder": order("src/backend.c", r"\nint set_heart_beat \(object_t \* ob, int to\) \{", [
+                ("destructed-return", r"if \(ob->flags & O_DESTRUCTED\)\s*return 0;"),
+                ("adjust-index", r"if \(index <= heart_beat_index\)\s*heart_beat_index--;"),
+                ("adjust-todo", r"if \(index < num_hb_to_do\)\s*num_hb_to_do--;\s*\}\s*\n\s*if \(\(num ="),
+                ("close-gap", r"memmove \(heart_beats \+ index"),
+                ("count-down", r"num_hb_objs--;")]),
+            "present2Order": order("src/simulate.c", r"\nstatic object_t\* object_present2 \(char \*str, object_t \* ob\) \{", [
+                ("remember-env", r"object_t \*env = ob \? ob->super : 0;"),
+                ("loop", r"for \(; ob; ob = ob->next_inv\)"),
+                ("apply-id", r"apply \(APPLY_ID, ob, 1"),
+                ("destructed-return", r"if \(ob->flags & O_DESTRUCTED\)\s*return 0;"),
+                ("left-env-return", r"if \(ob->super != env\)\s*return 0;"),
+                ("zero-continue", r"if \(IS_ZERO \(ret\)\)\s*continue;")]),
+        }
+        # the error texts the model reproduces must still be in the source
+        texts = {"errInsideSrc": ("src/simulate.c", "*Can't move object inside itself."),
+                 "errDestDestSrc": ("src/simulate.c", "*Can't move to a destructed object."),
+                 "errMoveDestedSrc": ("lib/efuns/inventory.c", "move_object(): can't move a destructed object"),
+                 "errNoDestSrc": ("lib/efuns/inventory.c", "move_object failed: could not find destination"),
+                 "errRestrictSrc": ("src/simulate.c", "*Only this_object() can be destructed from move_or_destruct."),
+                 "errCloneCloneSrc": ("src/simulate.c", "*Cannot clone from a clone!")}
+        tl = []
+        for name, (path, txt) in texts.items():
+            if txt not in open(os.path.join(E.REPO, path)).read():
+                raise TieBroken("%s:%s" % (path, name), "error text %r no longer in %s" % (txt, path))
+            tl.append('/-- `%s` -/\ndef %s : String := "%s"' % (path, name, txt.replace('"', '\\"')))
+        ol = []
+        for name, lst in orders.items():
+            ol.append("/-- statement order in the C source (first occurrences), regenerated on every run -/\n"
+                      "def %s : List String := [%s]" % (name, ", ".join('"%s"' % x for x in lst)))
+        out = ol + tl + ["/-- lib/misc/hash.c `T[]` -/",
                "def pearsonT : Array Nat := #[%s]" % ", ".join(str(x) for x in nums),
                "/-- lib/rc/rc.cpp `__LIVING_HASH_TABLE_SIZE__` -/",
                "def livingHashSize : Nat := %s" % m2.group(1),
